@@ -27,6 +27,12 @@ func VH_C29_verify() {
 	}
 	pc, err := newSecp256k1ProofContext(mod, keys)
 	sym.Assert(err == nil, "proof context is built")
+	if sym.Bool("context_from_bytes") {
+		// the verifying node usually holds a context restored from its serialised form
+		sym.Reach("deserialised-context")
+		pc, err = newSecp256k1ProofContextFromBytes(mod, pc.Bytes())
+		sym.Assert(err == nil, "proof context is restored from bytes")
+	}
 	dHash := sym.Bytes("decision", 32)
 	other := sym.Bytes("other", 32)
 	proof := pc.NewProof().(*secp256k1Proof)
